@@ -266,7 +266,8 @@ Proof.
     auto.
   - apply negb_false_iff, mode_eqb_eq in NR. subst req. apply fetch_active_R_ro; assumption.
   - destruct (close_ro w RO) as (A & B & N & _). destruct (close w) as [w1 e1]. cbn [fst snd] in *. subst e1. cbn [seq].
-    destruct (open_ro None w1 A I) as (A2 & B2 & _). split; [exact A2 | congruence].
+    assert (A' : ro (set_in_mem w1 false)) by (destruct A as [HA DA]; split; assumption).
+    destruct (open_ro None (set_in_mem w1 false) A' I) as (A2 & B2 & _). split; [exact A2|]. rewrite B2. exact B.
   - auto.
   - apply fetch_active_R_ro; assumption.
   - unfold op_gated in G. simpl in G.
@@ -343,10 +344,10 @@ Qed.
 
 (* helpers *)
 Definition path2workspace_run (f : list string) (lk cf : bool) (nc : nat) : world * option err :=
-  seq (open_ None {| handle_of := Closed; defmode := R; file := f; locked := lk; close_fault := cf; repack := false; ncat := nc |}) close.
+  seq (open_ None {| handle_of := Closed; defmode := R; file := f; locked := lk; close_fault := cf; repack := false; ncat := nc; in_mem := false |}) close.
 
 Lemma path2workspace_readonly f lk cf nc :
-  let w0 := {| handle_of := Closed; defmode := R; file := f; locked := lk; close_fault := cf; repack := false; ncat := nc |} in
+  let w0 := {| handle_of := Closed; defmode := R; file := f; locked := lk; close_fault := cf; repack := false; ncat := nc; in_mem := false |} in
   handle_of (fst (open_ None w0)) = Open R
   /\ path2workspace_run f lk cf nc = (w0, None).
 Proof. simpl. split; reflexivity. Qed.
@@ -396,7 +397,7 @@ Proof.
       destruct (close_inv w3) as (E3 & _). destruct (close w3) as [w4 [e4|]]; simpl in *;
         eapply same_env_trans; eauto; eapply same_env_trans; eauto; eapply same_env_trans; eauto.
   - destruct (close_inv w) as (E0 & _). destruct (close w) as [w1 [e1|]]; simpl in *; [exact E0|].
-    destruct (open_inv None w1) as (E & _). eapply same_env_trans; eauto.
+    destruct (open_inv None (set_in_mem w1 false)) as (E & _). eapply same_env_trans; [exact E0|]. exact E.
   - apply same_env_refl.
   - unfold fetch_active. destruct (handle_of w).
     + destruct (open_inv (Some R) w) as (E & _ & N). destruct (open_ (Some R) w) as [w2 e2]. simpl in *. subst e2. simpl.
@@ -429,7 +430,7 @@ Proof.
         (eapply extends_trans; [|exact X3]); (eapply extends_trans; [|exact X2]); (eapply extends_trans; [exact X0|]);
         exists []; rewrite app_nil_r; exact F.
   - destruct (close_inv w) as (_ & X0). destruct (close w) as [w1 [e1|]]; simpl in *; [exact X0|].
-    destruct (open_inv None w1) as (_ & F & _). eapply extends_trans; [exact X0|]. exists []. rewrite app_nil_r. exact F.
+    destruct (open_inv None (set_in_mem w1 false)) as (_ & F & _). eapply extends_trans; [exact X0|]. exists []. rewrite app_nil_r. exact F.
   - apply extends_refl.
   - unfold fetch_active. destruct (handle_of w).
     + destruct (open_inv (Some R) w) as (_ & F & N). destruct (open_ (Some R) w) as [w2 e2]. simpl in *. subst e2. simpl.
